@@ -708,6 +708,19 @@ func (n *norm) firstEvaluated(e ast.Expr) *ast.CallExpr {
 		return n.firstEvaluated(x.Index)
 	case *ast.TypeAssertExpr:
 		return n.firstEvaluated(x.X)
+	case *ast.CompositeLit:
+		// the operands of a composite literal are evaluated in the order they are written
+		for _, el := range x.Elts {
+			v := el
+			if kv, ok := el.(*ast.KeyValueExpr); ok {
+				v = kv.Value
+			}
+			if n.trivial(v) {
+				continue
+			}
+			return n.firstEvaluated(v)
+		}
+		return nil
 	case *ast.CallExpr:
 		if fn, _ := n.site(x); fn != nil {
 			return x
@@ -1047,11 +1060,12 @@ func (n *norm) expandMode(call *ast.CallExpr, fn *types.Func, d *ast.FuncDecl, c
 	n.seq++
 	suffix := fmt.Sprintf("_i%d", n.seq)
 	nd, _ := n.renamedCopy(d, suffix)
+	notCopyFree := n.paramsNotCopyFree(d)
 	ex := &expansion{}
 	bind := func(name *ast.Ident, typ ast.Expr, val ast.Expr, want types.Type) {
 		// a parameter the callee never assigns, bound to a caller variable of the same type that
 		// is itself assigned only once, is that variable (no copy, hence no new captured cell)
-		if name != nil && name.Name != "_" && want != nil && !assignedIn(nd.Body, name.Name) {
+		if name != nil && name.Name != "_" && want != nil && !assignedIn(nd.Body, name.Name) && !notCopyFree[strings.TrimSuffix(name.Name, suffix)] {
 			if id, ok := ast.Unparen(val).(*ast.Ident); ok && n.aliasable(id, want) {
 				substIdent(nd.Body, name.Name, func() ast.Expr { return &ast.Ident{Name: id.Name} })
 				return
@@ -1503,6 +1517,9 @@ func (n *norm) substitute(call *ast.CallExpr, file *ast.File, fd *ast.FuncDecl, 
 	if len(call.Args) != sig.Params().Len() {
 		return nil
 	}
+	if len(n.paramsNotCopyFree(d)) > 0 {
+		return nil // a parameter whose address is taken (or that is assigned) is a copy of its own
+	}
 	// parameter objects -> argument expressions
 	bindings := map[types.Object]ast.Expr{}
 	simple := func(e ast.Expr, want types.Type) bool {
@@ -1808,7 +1825,23 @@ func (n *norm) aliasable(id *ast.Ident, want types.Type) bool {
 	}
 	single := true
 	is := func(e ast.Expr) bool {
-		x, ok := ast.Unparen(e).(*ast.Ident)
+		e = ast.Unparen(e)
+		// a write to a field or element of a struct- or array-valued variable writes the variable
+		switch obj.Type().Underlying().(type) {
+		case *types.Struct, *types.Array:
+			for {
+				switch x := e.(type) {
+				case *ast.SelectorExpr:
+					e = ast.Unparen(x.X)
+					continue
+				case *ast.IndexExpr:
+					e = ast.Unparen(x.X)
+					continue
+				}
+				break
+			}
+		}
+		x, ok := e.(*ast.Ident)
 		return ok && n.info.Uses[x] == types.Object(obj)
 	}
 	ast.Inspect(n.curFn, func(x ast.Node) bool {
@@ -2228,4 +2261,130 @@ func (n *norm) inlineMethodValues(fd *ast.FuncDecl) bool {
 		changed = true
 	}
 	return changed
+}
+
+// paramsNotCopyFree: the parameters (and receiver) of d that the body assigns, increments,
+// takes the address of — explicitly, or implicitly by calling a pointer method on them or slicing
+// an array — or ranges into. Such a parameter is a variable of its own in the callee; it may
+// never be replaced by the caller's variable or argument expression.
+func (n *norm) paramsNotCopyFree(d *ast.FuncDecl) map[string]bool {
+	out := map[string]bool{}
+	params := map[types.Object]string{}
+	for _, fl := range []*ast.FieldList{d.Recv, d.Type.Params} {
+		if fl == nil {
+			continue
+		}
+		for _, f := range fl.List {
+			for _, nm := range f.Names {
+				if o := n.info.Defs[nm]; o != nil {
+					params[o] = nm.Name
+				}
+			}
+		}
+	}
+	is := func(e ast.Expr) (string, bool) {
+		id, ok := ast.Unparen(e).(*ast.Ident)
+		if !ok {
+			return "", false
+		}
+		name, ok := params[n.info.Uses[id]]
+		return name, ok
+	}
+	// writing a field or element of a struct- or array-valued parameter writes the parameter
+	lvalueBase := func(e ast.Expr) (string, bool) {
+		e = ast.Unparen(e)
+		direct := true
+		for {
+			switch x := e.(type) {
+			case *ast.SelectorExpr:
+				e, direct = ast.Unparen(x.X), false
+				continue
+			case *ast.IndexExpr:
+				e, direct = ast.Unparen(x.X), false
+				continue
+			}
+			break
+		}
+		nm, ok := is(e)
+		if !ok {
+			return "", false
+		}
+		if !direct {
+			switch n.info.TypeOf(e).Underlying().(type) {
+			case *types.Struct, *types.Array:
+			default:
+				return "", false // through a pointer, slice or map: not the parameter's own storage
+			}
+		}
+		return nm, true
+	}
+	ast.Inspect(d.Body, func(x ast.Node) bool {
+		switch s := x.(type) {
+		case *ast.AssignStmt:
+			for _, l := range s.Lhs {
+				if nm, ok := lvalueBase(l); ok {
+					out[nm] = true
+				}
+			}
+		case *ast.IncDecStmt:
+			if nm, ok := lvalueBase(s.X); ok {
+				out[nm] = true
+			}
+		case *ast.UnaryExpr:
+			if s.Op == token.AND {
+				if nm, ok := is(s.X); ok {
+					out[nm] = true
+				}
+				// &p.field of a struct-valued parameter addresses the parameter's own storage
+				e := ast.Unparen(s.X)
+				for {
+					if sel, ok := e.(*ast.SelectorExpr); ok {
+						e = ast.Unparen(sel.X)
+						continue
+					}
+					if ix, ok := e.(*ast.IndexExpr); ok {
+						e = ast.Unparen(ix.X)
+						continue
+					}
+					break
+				}
+				if nm, ok := is(e); ok {
+					if _, isPtr := n.info.TypeOf(e).Underlying().(*types.Pointer); !isPtr {
+						out[nm] = true
+					}
+				}
+			}
+		case *ast.RangeStmt:
+			for _, kv := range []ast.Expr{s.Key, s.Value} {
+				if kv != nil {
+					if nm, ok := is(kv); ok {
+						out[nm] = true
+					}
+				}
+			}
+		case *ast.SelectorExpr:
+			// a pointer method called on a non-pointer parameter takes its address
+			if nm, ok := is(s.X); ok {
+				if sel := n.info.Selections[s]; sel != nil && sel.Kind() == types.MethodVal {
+					if fn, isFn := sel.Obj().(*types.Func); isFn {
+						if recv := fn.Type().(*types.Signature).Recv(); recv != nil {
+							_, wantPtr := recv.Type().(*types.Pointer)
+							_, havePtr := n.info.TypeOf(s.X).Underlying().(*types.Pointer)
+							if wantPtr && !havePtr {
+								out[nm] = true
+							}
+						}
+					}
+				}
+			}
+		case *ast.SliceExpr:
+			if nm, ok := is(s.X); ok {
+				if _, isArr := n.info.TypeOf(s.X).Underlying().(*types.Array); isArr {
+					out[nm] = true
+				}
+			}
+		}
+		return true
+	})
+	return out
 }
